@@ -8,6 +8,7 @@ package main
 import (
 	"flag"
 	"fmt"
+	"golang.org/x/tools/go/packages"
 	"os"
 	"path/filepath"
 	"runtime/debug"
@@ -41,6 +42,8 @@ func main() {
 	noEvidence := flag.Bool("no-evidence", false, "do not write evidence (self-test children)")
 	dump := flag.Bool("dump", false, "print every obligation")
 	vdir := flag.String("verif", "", "verif dir (default: dir of the binary's parent, or /verif)")
+	dumpFuncs := flag.Bool("dump-funcs", false, "print the declaration keys of all repo functions (to regenerate baseline_funcs.txt)")
+	noNorm := flag.Bool("no-normalize", false, "do not expand helper functions that are not in baseline_funcs.txt")
 	flag.Parse()
 
 	if *vdir != "" {
@@ -50,6 +53,22 @@ func main() {
 		if _, err := os.Stat(filepath.Join(d, "properties.jsonl")); err == nil {
 			verifDir = d
 		}
+	}
+	BaselineFile = filepath.Join(verifDir, "baseline_funcs.txt")
+	NoNormalize = *noNorm
+	if *dumpFuncs {
+		NoNormalize = true
+		c, err := Load(*repo, nil, "")
+		if err != nil {
+			fmt.Fprintln(os.Stderr, err)
+			os.Exit(2)
+		}
+		var all []*packages.Package
+		all = append(all, c.Pkgs...)
+		for _, k := range declaredFuncs(all) {
+			fmt.Println(k)
+		}
+		os.Exit(0)
 	}
 	if *tier == "" {
 		*tier = os.Getenv("VERIF_TIER")
@@ -107,6 +126,9 @@ func runProp(pd *propDef, tier, repo, overlay string, seed int, writeEv, dump bo
 			return 2
 		}
 		before := len(r.Obligs)
+		for _, nn := range c.NormNotes {
+			r.Note("normalisation (%s): %s", c.Config, nn)
+		}
 		runRules(pd, c, r)
 		edges := 0
 		analysed = append(analysed, map[string]any{
